@@ -751,6 +751,12 @@ func c05Directed() []C05Case {
 			{&GSchema{HasTypes: true, Types: []string{"integer"}, Format: "int32", Enum: []any{5.0}}, SVal{Kind: "prim", T: "5"}},
 			{&GSchema{HasTypes: true, Types: []string{"integer"}, Enum: []any{5.0}}, SVal{Kind: "prim", T: "5"}},
 			{intS(), SVal{Kind: "prim", T: "0x10"}}, {intS(), SVal{Kind: "prim", T: "abc"}},
+			// the declared width of a number is not a rounding instruction: 0.1 is read as the float64 0.1
+			{&GSchema{HasTypes: true, Types: []string{"number"}, Format: "float", Max: fp(0.1)}, SVal{Kind: "prim", T: "0.1"}},
+			{&GSchema{HasTypes: true, Types: []string{"number"}, Format: "float", Enum: []any{0.1, 0.7, 2.5}}, SVal{Kind: "prim", T: "0.7"}},
+			{&GSchema{HasTypes: true, Types: []string{"number"}, Format: "double", Min: fp(0.3), Max: fp(0.3)}, SVal{Kind: "prim", T: "0.3"}},
+			{arr(&GSchema{HasTypes: true, Types: []string{"number"}, Format: "float", Enum: []any{0.1, 0.7, 2.5}}), SVal{Kind: "arr", Ts: []string{"0.1", "0.7"}}},
+			{&GSchema{HasTypes: true, Types: []string{"object"}, Props: map[string]*GSchema{"ratio": {HasTypes: true, Types: []string{"number"}, Format: "float", Max: fp(0.1)}}}, SVal{Kind: "obj", KVs: [][2]string{{"ratio", "0.1"}}}},
 		} {
 			c := base
 			c.Schema = sv.g
